@@ -145,6 +145,22 @@ Theorem c04_eq_broadcast_refuted :
 Proof. exact eq_broadcast_no_hash. Qed.
 Print Assumptions c04_eq_broadcast_refuted.
 
+(* an equality that compares instants (jd1 + jd2, so that another split of the same instant is "equal") is
+   inconsistent with a hash of the separate parts ... *)
+Theorem c04_eq_instant_refuted :
+  exists a b : obj tV tJ, eq_spec tV tJ inst_eqb a b = true /\ hash_model tV tJ a <> hash_model tV tJ b.
+Proof. exact eq_instant_no_hash. Qed.
+Print Assumptions c04_eq_instant_refuted.
+
+(* ... and consistent with a hash of the instants: the law eq -> equal hash is about the pair (eq, hash), the
+   specification of this property keeps both on the exact jd pairs *)
+Theorem eq_hash_instant :
+  forall a b : obj tV tJ,
+    eq_spec tV tJ inst_eqb a b = true ->
+    map (fun j => fst j + snd j) (hash_model tV tJ a) = map (fun j => fst j + snd j) (hash_model tV tJ b).
+Proof. exact eq_instant_hash_instant. Qed.
+Print Assumptions eq_hash_instant.
+
 (* non-vacuity: the hypotheses are satisfiable and the model computes *)
 Example ex_run_aligned :
   exists st rs, w_run quirks_off (w_init quirks_off 0 w_R)
